@@ -3,7 +3,7 @@ import ast
 
 from .astutil import fold, NotConstant, unparse, dotted
 from .bitcells import (Unsupported, Param, View, Bits, CU32, ModVal, XorVal, Maybe, TableVal, Opaque, FuncValue, TOP,
-                       PCell, INF, Record, RecordType)
+                       PCell, INF, Record, RecordType, ClassValue, Obj, BoundMethod)
 
 CONSTS = (int, bool, str, type(None))
 STR_METHODS = {'lower', 'upper', 'strip', 'lstrip', 'rstrip', 'startswith', 'endswith', 'replace', 'casefold', 'title'}
@@ -93,7 +93,7 @@ class ExprMixin:
         if name in facts.classes:
             if not mm.stable(name):
                 raise Unsupported('class {!r} is bound more than once at module level'.format(name))
-            v = self.record_class(facts.classes[name].node)
+            v = self.class_value(facts.classes[name].node)
             mm.values[name] = v
             return v
         if mm.written_by_functions(name) and not (name in facts.tables and mm.table_mode(name) == 'extended'):
@@ -126,6 +126,7 @@ class ExprMixin:
         v = sub.ev(expr, st)
         if st.dead:
             raise Unsupported('initialiser of {!r} always raises'.format(name))
+        sub.freeze(v, st)
         if st.cells or sub.masks or not self.is_static(v):
             raise Unsupported('initialiser of {!r} is not a constant'.format(name))
         if isinstance(v, FuncValue) and v.label is None:
@@ -167,6 +168,17 @@ class ExprMixin:
             return True
         if isinstance(v, Record):
             return all(self.is_static(x) for x in v.values.values())
+        if isinstance(v, ClassValue):
+            return True
+        if isinstance(v, Obj):
+            if v.frozen is None:
+                return False
+            if not hasattr(v, '_static'):
+                v._static = True        # cycles: assume, then verify
+                v._static = all(self.is_static(x) for x in v.frozen.values())
+            return v._static
+        if isinstance(v, BoundMethod):
+            return self.is_static(v.obj)
         if isinstance(v, list):
             return all(self.is_static(x) for x in v)
         if isinstance(v, dict):
@@ -257,6 +269,8 @@ class ExprMixin:
                 return self.trunc32(base.v, st, node)
             if isinstance(base, Record) and node.attr in base.values:
                 return base.values[node.attr]
+            if isinstance(base, Obj) or type(base).__name__ == 'Super':
+                return self.get_attr(base, node.attr, st, node)
             raise Unsupported('attribute .{} on abstract value'.format(node.attr))
         if isinstance(node, ast.Subscript):
             return self.subscript(node, st)
@@ -322,7 +336,7 @@ class ExprMixin:
         """Python truthiness of a folded value, or None"""
         if isinstance(v, CONSTS) or isinstance(v, (list, dict, set, frozenset)):
             return bool(v)
-        if isinstance(v, FuncValue):
+        if isinstance(v, (FuncValue, ClassValue, BoundMethod, Obj, RecordType)):
             return True
         return None
 
